@@ -158,7 +158,7 @@ pub fn guard<T>(f: impl FnOnce() -> T) -> Result<T, PanicInfo> {
                 file: "<unknown>".into(),
                 line: 0,
             });
-            if p.file.starts_with("src/") && !p.is_budget() {
+            if p.file.starts_with("src/") && !p.msg.starts_with("TW2SIM-") {
                 // a panic in the harness itself is never a finding
                 eprintln!("HARNESS-ERROR: harness panicked: {} at {}:{}", p.msg, p.file, p.line);
                 std::process::exit(2);
